@@ -4,12 +4,44 @@ from ..psi import T, fmt
 from . import common
 
 
+QUERY_METHODS = {'get_tracking'}                 # refreshed from the code by init_names(fb)
+GRACE_METHODS = {'is_within_grace_period'}
+_NAMES_FOR = [None]
+
+
+def init_names(fb):
+    """names of the poller-trait methods, read off their shipped implementations: a *query* method is a trait-impl method
+    of the daemon that reaches chrony_candm::blocking_query*; a *grace* method is one returning bool from
+    Instant::elapsed() (so the rules do not depend on what the trait or its methods are called)"""
+    if _NAMES_FOR[0] is fb:
+        return
+    _NAMES_FOR[0] = fb
+    q, g = set(), set()
+    for b in fb.bodies(common.DAEMON):
+        if b.defkind == 'Closure' or not b.impl_trait or b.impl_trait.startswith('std::'):
+            continue
+        if common.reaches_call(fb, b, lambda n: n.startswith('chrony_candm::') and 'blocking_query' in n):
+            q.add(b.name)
+        elif b.argc == 1 and b.tystr(b.locals[0]['ty']) == 'bool' and common.reaches_call(fb, b, lambda n: n.endswith('Instant::elapsed')):
+            g.add(b.name)
+    if q:
+        QUERY_METHODS.clear()
+        QUERY_METHODS.update(q)
+    if g:
+        GRACE_METHODS.clear()
+        GRACE_METHODS.update(g)
+
+
 def is_chrony_query(name):
-    return name.endswith('::get_tracking') or 'chrony_candm::blocking_query' in name
+    return (name.startswith('chrony_candm::') and 'blocking_query' in name) or (name.split('::')[-1] in QUERY_METHODS and 'clock_bound_d' in name)
 
 
 def is_grace_query(name):
-    return name.endswith('::is_within_grace_period')
+    return name.split('::')[-1] in GRACE_METHODS and 'clock_bound_d' in name
+
+
+def mentions_query(v):
+    return any(x[0] == 't' and x[1] == 'call' and is_chrony_query(x[2][0]) for x in psi.walk(v))
 
 
 def is_send(name):
@@ -20,6 +52,7 @@ class PollerModel:
     def __init__(self, fb, chk, rule):
         self.fb = fb
         self.ok = False
+        init_names(fb)
         cands = []
         for b in fb.bodies(common.DAEMON):
             if b.defkind == 'Closure':
@@ -51,7 +84,7 @@ class PollerModel:
                 continue
             name = ef['callee']
             info['calls'].append((n, name, ef))
-            if 'clock_gettime' in name:
+            if common.is_clock_read(name):
                 cid = ef['args'][0][1] if ef['args'] and psi.is_int_const(ef['args'][0]) else None
                 info['reads'].append((n, cid, ef))
             elif is_chrony_query(name) and info['query'] is None:
